@@ -401,3 +401,39 @@ def run_bgate(prog, rule="R-BGATE"):
     res.counts["basis_write_sites_in_main"] = n
     res.floor("QSwrite_basis call sites in esolver's main", n, 1)
     return res
+
+
+def run_ftype(prog, rule="R-FTYPE"):
+    """the file type comes from the extension of the whole path.  get_ftype (found as the function of esolver.c that tokenises its name
+    parameter with EGioNParse) must split the name at its delimiters only: the tokeniser's comment set - characters that end the
+    parse - has to be empty, otherwise a path with such a character (a blank in a directory or file name) is cut there, the extension
+    is never seen and an LP file is read as MPS."""
+    res = RuleResult(rule, "the tokeniser call that splits the file name for the extension test has an empty comment set")
+    n = 0
+    for f in prog.funcs.values():
+        if f.live is None or not f.unit.startswith("esolver/"):
+            continue
+        pnames = {p_[0] for p_ in f.params if "char" in p_[1]}
+        if not pnames:
+            continue
+        # the buffer that is tokenised holds a copy of the name parameter
+        for b, i, c in f.calls():
+            if (callee(c) or "") != "EGioNParse" or len(c[3]) < 4:
+                continue
+            copied = any((callee(c2) or "") in ("snprintf", "strncpy", "strcpy", "sprintf") and any(is_var(a, kind="p") or (is_var(a) and strip(a)[2] in pnames) for a in c2[3])
+                         for b2, i2, c2 in f.calls())
+            if not copied:
+                continue
+            n += 1
+            res.obligations += 1
+            res.nontrivial += 1
+            cs = strip(c[3][3])
+            if isinstance(cs, list) and cs and cs[0] == "s" and cs[1] == "":
+                res.sample({"site": "%s %s: %s" % (short_loc(c[4]), f.name, show(c)[:70]), "verdict": "empty comment set"})
+            else:
+                res.violations.append(Violation(rule, "%s|file name tokenised with comment set %s" % (f.name, show(cs)[:12]), f.name, short_loc(c[4]),
+                                                "%s: the fourth argument is the set of characters that end the parse; with %s a path containing one of them is cut "
+                                                "there and its extension is never seen" % (show(c)[:80], show(cs)[:12])))
+    res.counts["file_name_tokeniser_calls"] = n
+    res.floor("tokeniser calls on a copy of the file name", n, 1)
+    return res
